@@ -150,6 +150,7 @@ func checkKernel(w *load.World, c *core.Collector, f *asmFunc, props []string) {
 	if !usesYLen {
 		c.Notef("ASM: %s consults only len(x); equal operand lengths are the callers' obligation (VALID)", f.name)
 	}
+	checkRegisterFlow(w, c, f, cnt, props)
 	// loops: label L ... JMP L
 	type loop struct {
 		label      string
